@@ -38,6 +38,21 @@ class Case:
         self.meta = meta or {}
 
 
+def run_group(cmd, timeout, env=None, cwd=None):
+    """subprocess.run that kills the whole process group on timeout (the driver spawns the code generator as a child)"""
+    p = subprocess.Popen(cmd, stdout=subprocess.PIPE, stderr=subprocess.PIPE, env=env, cwd=cwd, start_new_session=True)
+    try:
+        out, err = p.communicate(timeout=timeout)
+    except subprocess.TimeoutExpired:
+        try:
+            os.killpg(p.pid, signal.SIGKILL)
+        except OSError:
+            pass
+        p.communicate()
+        raise
+    return subprocess.CompletedProcess(cmd, p.returncode, out, err)
+
+
 class Toolchain:
     """bindir: the debug-assertion build (its runtime is linked into every executable under test);
     fastdir (optional): the build without debug assertions used as compiler host for bulk compilation."""
@@ -66,7 +81,7 @@ class Toolchain:
         if gc:
             cmd.append("--gc=%s" % gc)
         try:
-            p = subprocess.run(cmd, stdout=subprocess.PIPE, stderr=subprocess.PIPE, timeout=timeout, env=e, cwd=os.path.dirname(src))
+            p = run_group(cmd, timeout, env=e, cwd=os.path.dirname(src))
         except subprocess.TimeoutExpired:
             return False, "compile timeout"
         err = p.stderr.decode("utf-8", "replace") + p.stdout.decode("utf-8", "replace")
@@ -104,8 +119,7 @@ class Toolchain:
         if env:
             e.update(env)
         try:
-            p = subprocess.run(cmd, stdout=subprocess.PIPE, stderr=subprocess.PIPE, timeout=timeout, env=e,
-                               cwd=os.path.dirname(src))
+            p = run_group(cmd, timeout, env=e, cwd=os.path.dirname(src))
         except subprocess.TimeoutExpired:
             return False, "compile timeout"
         err = "\n".join(l for l in (p.stderr.decode("utf-8", "replace") + p.stdout.decode("utf-8", "replace")).splitlines()
@@ -186,10 +200,12 @@ class Unit:
             for i in range(g * GROUP, min(len(self.cases), (g + 1) * GROUP)):
                 c = self.cases[i]
                 # in whole-group mode (c == -1) cases known to trap are skipped; they run on their own
-                cond = "c == %di32" % i if (c.expect_end not in (0, None)) else "c == -1i32 || c == %di32" % i
+                # c <= -2: resume the whole group at case -c - 2 (used when a case of unknown ending stopped the run)
+                cond = "c == %di32" % i if (c.expect_end not in (0, None)) else "sel(c, %di32)" % i
                 lines.append("  if %s { println(\"#%d\"); case_%d(); }" % (cond, i, i))
             lines.append("}")
             out.append("\n".join(lines))
+        out.append("fn sel(c: Int32, i: Int32): Bool { c == i || c == -1i32 || (c < -1i32 && i >= -2i32 - c) }")
         main = ["fn main() {",
                 "  let g = std::argv(0i32).to_int32().get_or_panic();",
                 "  let c = if std::argc() > 1i32 { std::argv(1i32).to_int32().get_or_panic() } else { -1i32 };"]
@@ -228,6 +244,39 @@ class Observation:
 
     def key(self):
         return (tuple(self.out), self.end, self.errline)
+
+
+def run_unit_resuming(exe, unit, flags=None, timeout=60, env=None):
+    """Like run_unit for units whose cases may end in unknown ways: after a case stops the process the group is
+    resumed behind it (processes = abnormal endings + 1 per group)."""
+    obs = {}
+    for g in range(unit.ngroups()):
+        lo, hi = g * GROUP, min(len(unit.cases), (g + 1) * GROUP)
+        start = lo
+        while start < hi:
+            sel = -1 if start == lo else -2 - start
+            r = run_exe(exe, [g, sel], flags=flags, timeout=timeout, env=env)
+            parts = split_output(r["out"])
+            ran = sorted(i for i in parts if i >= start)
+            end = ending(r)
+            if end == "exit:0" and ran and ran[-1] == hi - 1:
+                for i in ran:
+                    obs[i] = Observation(parts[i], "exit:0", "")
+                for i in range(start, hi):
+                    if i not in obs:
+                        obs[i] = Observation([], "not-run", "")
+                break
+            # otherwise the process ended inside its last started case (a trap, a crash or an explicit exit)
+            if not ran:
+                obs[start] = Observation([], end, first_err_line(r), r["err"][-1500:])
+                start += 1
+                continue
+            for i in ran[:-1]:
+                obs[i] = Observation(parts[i], "exit:0", "")
+            last = ran[-1]
+            obs[last] = Observation(parts[last], end, first_err_line(r), r["err"][-1500:])
+            start = last + 1
+    return obs
 
 
 def run_unit(exe, unit, flags=None, timeout=120, env=None):
